@@ -82,7 +82,7 @@ LEVEL_TEXT = ('Every coefficient of every published table cell (61 tables, ~5 40
 LEVEL_NOTE = ('Trusts: the independent Hansen oracle (self-tested against textbook series, closed forms and mpmath quadrature on '
               'every run), python fractions, that `.py_func` is the source numba compiles, and "all orders" for closed-form '
               'cells means through e^40.  The compiled part covers l <= 3 in the quick tier and all l in the thorough tier.')
-CASES = {'quick': 4000, 'thorough': 160000}
+CASES = {'quick': 16000, 'thorough': 400000}
 SHARDS = {'quick': 16, 'thorough': 16}
 TIMEOUT = {'quick': 1500, 'thorough': 4 * 3600}
 SHRINK_BUDGET = (40, 120.0)
@@ -90,7 +90,8 @@ SHRINK_BUDGET = (40, 120.0)
 SERIES_ORDER = 40
 POLY_ORDER = 24
 COEF_RTOL = Fraction(1, 10 ** 13)
-VAL_RTOL = 2e-13
+VAL_RTOL = 1e-13
+CLOSED_RTOL = 16 * 2.0 ** -52
 SAME_RTOL = 4 * 2.0 ** -52
 UNDERFLOW_FLOOR = 1e-300   # absolute: a term c_k e^k whose power is subnormal has lost its relative precision
 E_MAX = 0.9
@@ -190,14 +191,28 @@ def _table_series(fn):
 # exact oracle
 # ---------------------------------------------------------------------------------------------------
 
+_k0_cache = {}
+
+
 def _exact(l, p, q, closed=False):
-    """Coefficients of G_lpq^2: through e^40 when needed for a closed form, else through e^24."""
+    """Exact coefficients of G_lpq^2.
+
+    k = l-2p+q != 0: eccentric-anomaly-integral oracle through e^24 (e^40 if a closed form is claimed).
+    k = 0 (the cells TidalPy writes as closed forms): square of the finite true-anomaly closed form
+    through e^40; `selftest()` proves on every run that this equals the integral oracle to e^40 for
+    every (l, p), so the shards need not repeat the expensive order-40 expansion."""
     k = l - 2 * p + q
-    return H.g2_lpq(l, p, q, SERIES_ORDER if (closed or k == 0) else POLY_ORDER)
+    if k == 0:
+        key = (l, p)
+        if key not in _k0_cache:
+            g = H.g_closed_k0_series(l, p, SERIES_ORDER)
+            _k0_cache[key] = tuple(H._mul(g, g, SERIES_ORDER))
+        return _k0_cache[key]
+    return H.g2_lpq(l, p, q, SERIES_ORDER if closed else POLY_ORDER)
 
 
 def selftest():
-    H.selftest(quad=True)
+    H.selftest(quad=True)       # includes: integral oracle == closed forms to e^40 for all k=0 cells
     # series class: exact float conversion, inversion, integer powers
     e = Series.variable(12)
     e2 = e * e
@@ -347,7 +362,7 @@ _ref_cache = {}
 
 
 def _cells(l, N):
-    """[(p, q, closed, exact coefficient tuple through e^N)] of the verified interpreted table."""
+    """[(p, q, closed, (D, integer numerators of the exact coefficients through e^N))] per table cell."""
     key = (l, N)
     if key not in _ref_cache:
         fn = _mods()['ef'].eccentricity_truncations[N][l]
@@ -357,38 +372,52 @@ def _cells(l, N):
             for q in sorted(res[p]):
                 closed = res[p][q].degree() > N and (l - 2 * p + q) == 0
                 ex = _exact(l, p, q)[:N + 1]
-                out.append((p, q, closed, ex))
+                out.append((p, q, closed, _int_poly(ex)))
         _ref_cache[key] = out
     return _ref_cache[key]
 
 
-def _poly_ref(ex, e):
-    """(exact value, sum |c_k| e^k) of the truncated exact polynomial at the rational e."""
-    val = Fraction(0)
-    mag = Fraction(0)
-    pw = Fraction(1)
+def _int_poly(ex):
+    """Common denominator D and integer numerators n_k with c_k = n_k / D."""
+    D = 1
     for ck in ex:
-        if ck:
-            val += ck * pw
-            mag += abs(ck) * pw
-        pw *= e
-    return val, mag
+        D = D * ck.denominator // math.gcd(D, ck.denominator)
+    return D, [int(ck * D) for ck in ex]
 
 
 def _reference(l, N, evals):
-    """{(p,q): [(ref float, scale float) per e]}"""
+    """{(p,q): [(ref float, tolerance, error scale) per e]}: exact rational evaluation at the binary value of e
+    (integer arithmetic: e = a/b with b a power of two; int/int true division is correctly rounded)."""
     out = {}
-    fe = [Fraction(x) for x in evals]
-    for p, q, closed, ex in _cells(l, N):
+    pows = []
+    for x in evals:
+        a, b = float(x).as_integer_ratio()
+        pa = [1]
+        pb = [1]
+        for _ in range(N):
+            pa.append(pa[-1] * a)
+            pb.append(pb[-1] * b)
+        pows.append((pa, pb))
+    for p, q, closed, ip in _cells(l, N):
         lst = []
-        for x in fe:
+        for x, (pa, pb) in zip(evals, pows):
             if closed:
-                v = H.g2_closed_k0_value(l, p, x)
-                scale = float(v) * (1.0 + (2 * l - 1) / (1.0 - float(x) ** 2))
+                v = H.g2_closed_k0_value(l, p, Fraction(x))
+                fv = v.numerator / v.denominator
+                scale = fv * (1.0 + (2 * l - 1) / (1.0 - float(x) ** 2))
+                lst.append((fv, CLOSED_RTOL * scale + UNDERFLOW_FLOOR, scale))
             else:
-                v, mag = _poly_ref(ex, x)
-                scale = float(mag)
-            lst.append((float(v), scale))
+                D, nk = ip
+                num = 0
+                mag = 0
+                for k, n in enumerate(nk):
+                    if n:
+                        t = n * pa[k] * pb[N - k]
+                        num += t
+                        mag += abs(t)
+                den = D * pb[N]
+                scale = mag / den
+                lst.append((num / den, VAL_RTOL * scale + UNDERFLOW_FLOOR, scale))
         out[(p, q)] = lst
     return out
 
@@ -422,9 +451,8 @@ def _compare_level(c, l, N, got, evals, where):
         if len(vals) != len(evals):
             bad.append('%r: %d values for %d eccentricities' % (key, len(vals), len(evals)))
             continue
-        for x, g, (r, scale) in zip(evals, vals, ref[key]):
+        for x, g, (r, tol, scale) in zip(evals, vals, ref[key]):
             d = abs(g - r)
-            tol = VAL_RTOL * scale + UNDERFLOW_FLOOR
             ok = (d <= tol) if math.isfinite(g) else False
             if scale > 0 and math.isfinite(g):
                 worst = max(worst, d / scale)
@@ -481,7 +509,7 @@ def _eval_compiled(case):
             if set(direct) != set(per[ll]):
                 bad.append('key sets differ')
             for key in sorted(set(direct) & set(per[ll]) & set(ref)):
-                for x, a, b, (r, scale) in zip(evals, per[ll][key], direct[key], ref[key]):
+                for x, a, b, (r, tol, scale) in zip(evals, per[ll][key], direct[key], ref[key]):
                     if not (a == b or abs(a - b) <= SAME_RTOL * scale + UNDERFLOW_FLOOR):
                         bad.append('(p=%d,q=%d) e=%r: helper %.17g dispatcher %.17g' % (key[0], key[1], x, a, b))
             if bad:
